@@ -1,7 +1,10 @@
 """Option-variant alphabet shared by the run-level checks ("all option settings" in the quantifiers).
 Each variant is one valid override (or a small consistent group) of a documented option.  Excluded, with reason:
 the advanced switches that change the controller the M1 model describes (DESIGN section 3), `fit_lik=False`
-(rejected by the installed gpyreg), `periodic_vars`, `fun_values`, `output_fcn`, `f_vals` (unsupported inputs)."""
+(rejected by the installed gpyreg), `periodic_vars`, `fun_values`, `f_vals` (unsupported inputs), `acq_hedge=True` (the source says
+"not supported yet" and fails with UnboundLocalError), `warp_func != 0` (input warping is not ported: UnboundLocalError),
+`accelerate_mesh_steps=0` (compares the current iteration with itself: IndexError), `init_fun != init_sobol` and other
+`search_method` entries (rejected explicitly as not implemented)."""
 
 VARIANTS = [
     {"nonlinear_scaling": False}, {"complete_poll": True}, {"accelerate_mesh": False}, {"noise_size": 0.3}, {"tol_fun": 1e-2}, {"tol_fun": 1e-5},
@@ -14,6 +17,14 @@ VARIANTS = [
     {"min_failed_poll_steps": 0}, {"improvement_quantile": 0.3}, {"final_quantile": 0.1}, {"incumbent_sigma_multiplier": 1.0}, {"es_beta": 0.5},
     {"search_scale_success": 2.0}, {"max_iter": 3}, {"noise_final_samples": 0}, {"normalpha_level": 0.5}, {"upper_gp_length_factor": 2.0},
     {"gp_quadratic_mean_bound": False, "gp_mean_fun": "negquad"}, {"gp_cov_prior": "none"}, {"search_grid_number": 5}, {"es_start": 1.0},
+    # second batch: every remaining option the code actually reads (grep of options[...] in the sources) with a valid non-default value
+    {"accelerate_mesh_steps": 1}, {"accelerate_mesh_steps": 5}, {"mesh_overflow_warning": 1}, {"search_mesh_increment": 0},
+    {"search_mesh_increment": 2, "search_mesh_expand": 1}, {"gp_train_n_init": 16, "gp_train_n_init_final": 4}, {"gp_fixed_mean": True}, {"tol_sd": 0.5},
+    {"search_scale_incremental": 1.5}, {"search_scale_failure": 0.5}, {"search_optimize": True}, {"restarts": 1}, {"hpd_frac": 0.5},
+    {"gp_train_init_method": "sobol"}, {"gp_tol_opt": 1e-3}, {"gp_mean_percentile": 50}, {"fun_evals_per_iter": 2}, {"fitness_shaping": True},
+    {"mesh_noise_multiplier": 0.0}, {"mesh_noise_multiplier": 1.0}, {"noise_shaping": True}, {"hyp_run_weight": 0}, {"hyp_run_weight": 0.5},
+    {"use_effective_radius": False}, {"display": "off"}, {"display": "full"}, {"gp_hyp_sampler": "slicelite"}, {"weighted_hyp_cov": False},
+    {"max_poll_grid_number": 2}, {"rotate_gp": True}, {"tol_improvement": 0.5}, {"tol_improvement": 2}, {"forcing_exponent": 2}, {"forcing_exponent": 1},
 ]
 
 
